@@ -101,10 +101,16 @@ def _seq(case, tup, ints=False, keep_tuple=False):
     """the pair arguments (domain, modes, measurement point; the profile 5-tuple) in the container the caller holds them in: a tuple
     (default), a list, a numpy array - `case["_cont"]` selects"""
     cont = case.get("_cont")
+    whole = False
+    if case.get("ints") and not keep_tuple and not ints and all(float(v).is_integer() and abs(v) < 2 ** 31 for v in tup):
+        # whole-number coordinates / extents written without a decimal point (a YAML `meas_pt: [45, 21]`, grid indices times an
+        # integer spacing): Python ints or numpy integers - the same NUMBERS
+        whole = True
+        tup = tuple((int(v) if case["ints"] == "py" else np.int64(v)) for v in tup)
     if cont == "list":
         return list(tup)
     if cont == "array" and not keep_tuple:
-        return np.array(tup, dtype=int if ints else float)
+        return np.array(tup, dtype=int if (ints or whole) else float)
     return tup
 
 
@@ -136,6 +142,9 @@ def real_solve_canon(case):
     shape_ok = conc.shape in ((nlv, ny, nx), (ny, nx)) and (nlv == 1 or conc.ndim == 3)
     if not shape_ok or conc.size != nlv * ny * nx:
         return ("shape", conc.shape, flx.shape)
+    if not all(np.asarray(g).size == nlv * ny * nx for g in (X, Y, Z)) or flx.size != nlv * ny * nx:
+        # coordinate arrays whose shape differs from the fields' ("shape" is compared against the model's answer and never agrees)
+        return ("shape", conc.shape, flx.shape, tuple(np.shape(X)), tuple(np.shape(Y)), tuple(np.shape(Z)))
     conc = conc.reshape(nlv, ny, nx)
     flx = flx.reshape(nlv, ny, nx)
     Z3 = np.asarray(Z, dtype=float).reshape(nlv, ny, nx)
@@ -284,9 +293,14 @@ def random_source(rng, ny, nx, kind=None):
 
 
 def _random_source(rng, ny, nx, kind=None):
-    kind = kind or rng.choice(["random", "sparse", "smooth", "signed", "dipole", "zero"], p=[0.25, 0.2, 0.2, 0.2, 0.1, 0.05])
+    kind = kind or rng.choice(["random", "sparse", "smooth", "signed", "dipole", "zero", "single"], p=[0.25, 0.2, 0.2, 0.15, 0.1, 0.05, 0.05])
     if kind == "zero":
         return np.zeros((ny, nx))
+    if kind == "single":
+        # a point source: exactly one emitting cell
+        q = np.zeros((ny, nx))
+        q[int(rng.integers(ny)), int(rng.integers(nx))] = float(rng.uniform(0.5, 2.0))
+        return q
     if kind == "dipole":
         # exactly zero net emission
         q = np.zeros((ny, nx))
@@ -363,7 +377,40 @@ def random_case(rng, small=True, **over):
     case.update(over)
     limit_growth(case)
     case["_kinds"] = dict(halo=hk, levels=lk, meas=mk, prof="uniform" if prof[0][0] == prof[0][-1] else "varying")
+    if rng.random() < 0.12 and "meas_pt" not in over:
+        # whole-metre measurement point handed over as integers (the extents usually are not whole: xmax / 2, the padding, dx stay fractional)
+        case["ints"] = str(rng.choice(["py", "np"]))
+        case["meas_pt"] = (float(int(case["meas_pt"][0])), float(int(case["meas_pt"][1])))
+        case["_kinds"]["meas"] = "whole metres, integer-typed"
     return case
+
+
+def big_cases(rng, tier, deep, k=3):
+    """requests of PRODUCTION size for the correspondence run (thorough tier and failing-input search only): 70..140 cells per axis, not
+    powers of two, one axis possibly odd, 5 000 - 20 000 retained modes, optionally a halo - the sizes at which blocked / chunked /
+    threaded code paths and size thresholds become active.  The Lean Float model runs them in 1-3 s each."""
+    if not (deep or tier == "thorough"):
+        return []
+    out = []
+    for i in range(k):
+        c = random_case(rng, small=True)
+        nx, ny = int(rng.integers(70, 141)), int(rng.integers(70, 141))
+        if i == 0:
+            nx, ny = int(rng.choice([96, 132, 100])), int(rng.choice([96, 128, 90]))
+        nz = int(rng.integers(6, 15))
+        z = zgrid(rng, nz)
+        d = float(rng.uniform(3.0, 8.0))
+        xmx, ymx = nx * d, ny * d * float(rng.uniform(0.8, 1.25))
+        analytic = bool(rng.random() < 0.25)
+        halo = float(rng.choice([0.0, 0.0, 2 * d, 3.3 * d]))
+        c.update(q=random_source(rng, ny, nx), z=z, profiles=uniform_profiles(rng, nz) if analytic else power_profiles(rng, nz, z),
+                 domain=(xmx, ymx), modes=[(nx, ny), (512, 512), (nx - 7, ny - 4)][int(rng.integers(3))], halo=halo, analytic=analytic,
+                 precision="double", meas_pt=(float(int(rng.integers(nx)) * d), float(int(rng.integers(ny)) * (ymx / ny))),
+                 levels=sorted({int(v) for v in rng.integers(0, nz, size=2)}))
+        limit_growth(c)
+        c["_kinds"] = dict(size="production (%d..%d thousand retained modes)" % (5, 20))
+        out.append(c)
+    return out
 
 
 def shooting_growth(case):
